@@ -15,6 +15,8 @@ mod reach;
 mod builder;
 mod replace;
 mod dwarf;
+mod features;
+mod gate;
 
 fn main() {
     let args: Vec<String> = std::env::args().collect();
@@ -42,6 +44,8 @@ fn main() {
         "builder" => builder::builder(&args[2..]),
         "replace" => replace::replace(&args[2..]),
         "dwarf" => dwarf::dwarf(&args[2..]),
+        "features" => features::features(&args[2..]),
+        "gate" => gate::gate(&args[2..]),
         other => {
             eprintln!("unknown subcommand {other}");
             exit(2)
